@@ -66,6 +66,11 @@ def value_eq(a, b, path='') -> Any:
         if len(a.items) != len(b.items):
             return False
         return z_and(*[z_bool(value_eq(x, y, path + '{}')) for x, y in zip(a.items, b.items)])
+    if isinstance(a, MDict) and isinstance(b, MDict) and (a.nodes or b.nodes):
+        sa = Seq([Lit((k, v)) for k, v in a.d.items()] + list(a.nodes))
+        sb = Seq([Lit((k, v)) for k, v in b.d.items()] + list(b.nodes))
+        goals = seq_goals(sa, sb, [])
+        return z_and(*[z3.Implies(z_and(*asm), g) for _, asm, g in goals])
     if isinstance(a, MDict) and isinstance(b, MDict) and a.is_concrete() and b.is_concrete():
         if set(a.d) != set(b.d):
             return False
